@@ -2,6 +2,7 @@ import CJ.Drv.Loop
 import CJ.Drv.Phantom
 import CJ.Drv.PhantomPort
 import CJ.Drv.PhantomLoad
+import CJ.Drv.PhantomFlow
 /-! Driver for C14: phantom selection (all selector generations, station / client / frozen clients),
 `crypto/rand.Int` and `binary.Varint` on their own; the station's destination-port decision; the subnet
 file's loop in front of the selection. -/
@@ -14,4 +15,5 @@ def main : IO Unit := runDriver fun
   | "varint" :: args => Phantom.handleVarint args
   | "dstport" :: args => PhantomPort.handle args
   | "load" :: args => PhantomLoad.handle args
+  | "flow" :: args => PhantomFlow.handle args
   | _ => none
